@@ -22,6 +22,7 @@ RULE = (
     "could run concurrently (unlimited peak > k); distinct = (program shape, k, policy, form)."
     ' Asynchronous auto-answering interrupt handlers are bodies too; two burst schedules per limit release a second body 1-7 loop passes after the first without waiting for quiescence.'
     ' Directed: a nested chain next to 2-4 siblings queued on the limiter, k = 1..3, 12 (quick) / 60 (thorough) burst schedules each: a release, a woken waiter and a new arrival in one loop turn.'
+    ' Directed: runner.map in raise mode with several failing items, each with its own error, k = 1..4, later failures finishing first: same end as the unlimited call.'
 )
 ASSUMPTIONS = [
     "the bound is on function-node bodies and asynchronous interrupt-handler bodies; gate functions and synchronous handlers are instantaneous decisions that cannot overlap anything",
@@ -283,6 +284,60 @@ def release_window_directed(ctx):
     ctx.case({"directed": "release-window"}, True)
 
 
+def bounded_map_failures(ctx):
+    """runner.map in raise mode over items of which SEVERAL fail, each with its own error, under k = 1..4 and schedules in
+    which a later failing item finishes before an earlier one: the bounded call ends like the unlimited call (the error
+    of the first failing item in input order), and no body is abandoned half-way (every entered body also exits)."""
+    from hgmon.build import build_program
+
+    rng = ctx.rng
+
+    class FailOn:
+        def __init__(self, param, excs):
+            self.param, self.excs, self._cur = param, excs, None
+
+        def __getitem__(self, i):
+            return self._pred if i == 0 else self._cur
+
+        def _pred(self, kw):
+            v = kw.get(self.param)
+            hit = isinstance(v, str) and v in self.excs
+            if hit:
+                self._cur = self.excs[v]
+            return hit
+
+    for n, bad in ((4, [0, 2]), (5, [1, 3, 4]), (3, [0, 1, 2]), (6, [2, 5])):
+        items = [f"it{j}" for j in range(n)]
+        excs = {items[j]: Boom(f"item {j} failed") for j in bad}
+        inner = {"name": "bm", "nodes": [{"k": "fn", "name": "work", "fid": "bm/work", "params": [{"n": "x"}], "outs": ["y"], "async": True}, {"k": "fn", "name": "post", "fid": "bm/post", "params": [{"n": "y"}], "outs": ["z"], "async": True}], "bind": {}}
+        results = {}
+        for k, pol in ((None, "first"), (1, "last"), (2, "last"), (3, "last"), (4, "last"), (2, "rand"), (3, "rand"), (2, "burst"), (3, "burst")):
+            rt.reset_program()
+            built = build_program(inner)
+            rt.FAIL_IF.clear()
+            rt.FAIL_IF["bm/work"] = FailOn("x", excs)
+            sched = rt.Sched(default=pol, rng=rng) if pol != "burst" else rt.Sched(default="rand", rng=rng, burst=(0.6, 4))
+            o = core.execute(built, {"x": list(items)}, "async", sched=sched, max_concurrency=k, map_over="x", warm=False)
+            rt.FAIL_IF.clear()
+            ctx.obs["limited_runs"] += 1
+            ctx.obs["bounded_map_failure_runs"] += 1
+            c2 = {"spec": inner, "inputs": {"x": items}, "form": "runner.map", "k": k, "policy": pol, "failing_items": bad}
+            if o.deadlock:
+                ctx.violation("C15:deadlock", f"k={k} {pol}: map over {n} items of which {bad} fail did not finish", c2)
+                continue
+            if o.inconclusive:
+                ctx.inconc(o.inconclusive)
+                continue
+            if k is None:
+                results["base"] = norm(o)
+                continue
+            if k is not None and o.rec.max_inflight_fn > k:
+                ctx.violation("C15:bound-exceeded", f"k={k} {pol}: {o.rec.max_inflight_fn} bodies at once in a failing map", c2)
+            if "base" in results and norm(o) != results["base"]:
+                ctx.violation("C15:result-differs", f"k={k} {pol}: map over {n} items of which {bad} fail ends with {core.short(norm(o), 200)}; the unlimited call ends with {core.short(results['base'], 200)}", c2)
+    ctx.case({"directed": "bounded-map-failures"}, True)
+
+
 def run(ctx):
     n = 40 if ctx.tier == "quick" else 1000
     core.WARM_P = 0.0
@@ -300,6 +355,7 @@ def run(ctx):
         return
     if ctx.shard[0] == 0:
         release_window_directed(ctx)
+        bounded_map_failures(ctx)
     for i in range(n):
         if i % 5 == 4:
             sequence_case(ctx, i)
